@@ -122,6 +122,7 @@ func (fv *FnV) lockOp(st *State, m string, lock bool, pos token.Pos, what string
 		fv.lockSites = append(fv.lockSites, m)
 	}
 	if lock {
+		fv.lockPanicSafe(st, m, pos)
 		fv.emit(st, "L", "lock-not-held:"+fv.siteText(pos, "call"), fv.lockProps(), eq(cur, "0"), "the mutex is not already held by this activation (self-deadlock)", pos)
 		fv.heapSet(st, "G|held", sto(h, m, "1"))
 	} else {
@@ -297,6 +298,75 @@ func (fv *FnV) dOrderCheck(st *State, pos token.Pos) {
 		} else {
 			o.Static = "fails: append inside `range` over a map; the element order of the result follows Go's randomised map iteration"
 		}
+		o.Script = ""
+	}
+}
+
+// lockPanicSafe: a mutex locked here is released also when something panics before the matching Unlock: either the
+// Unlock is deferred right after the Lock, or nothing between Lock and Unlock (same basic block) can panic.
+func (fv *FnV) lockPanicSafe(st *State, m string, pos token.Pos) {
+	var lockIns ssa.Instruction
+	b := fv.curBlock
+	idx := -1
+	for i, ins := range b.Instrs {
+		if ins.Pos() == pos {
+			if c, ok := ins.(*ssa.Call); ok && c.Common().StaticCallee() != nil && strings.HasSuffix(c.Common().StaticCallee().Name(), "Lock") {
+				lockIns, idx = ins, i
+			}
+		}
+	}
+	if lockIns == nil {
+		return
+	}
+	ok := false
+	why := "neither a deferred Unlock follows the Lock nor is the locked region free of operations that can panic"
+	// walk forward from the Lock; every path must reach an Unlock (or a deferred one) through instructions that cannot panic
+	type pos2 struct {
+		b *ssa.BasicBlock
+		i int
+	}
+	seen := map[*ssa.BasicBlock]bool{}
+	work := []pos2{{b, idx + 1}}
+	ok = true
+	for len(work) > 0 && ok {
+		p := work[len(work)-1]
+		work = work[:len(work)-1]
+		done := false
+		for i := p.i; i < len(p.b.Instrs) && !done && ok; i++ {
+			switch x := p.b.Instrs[i].(type) {
+			case *ssa.DebugRef, *ssa.UnOp, *ssa.Store, *ssa.Phi, *ssa.BinOp, *ssa.Alloc, *ssa.MakeInterface, *ssa.ChangeType, *ssa.Extract, *ssa.FieldAddr, *ssa.MakeClosure, *ssa.ChangeInterface:
+			case *ssa.Defer:
+				if f := x.Common().StaticCallee(); f != nil && strings.HasSuffix(f.Name(), "Unlock") {
+					done = true
+				}
+			case *ssa.Call:
+				if f := x.Common().StaticCallee(); f != nil && strings.HasSuffix(f.Name(), "Unlock") {
+					done = true
+					break
+				}
+				if bi, isB := x.Common().Value.(*ssa.Builtin); isB && (bi.Name() == "append" || bi.Name() == "len" || bi.Name() == "cap") {
+					break
+				}
+				ok = false
+				why = "a call between Lock and Unlock can panic while the mutex is held: " + fv.siteText(x.Pos(), "call")
+			case *ssa.If, *ssa.Jump:
+				for _, s := range p.b.Succs {
+					if !seen[s] {
+						seen[s] = true
+						work = append(work, pos2{s, 0})
+					}
+				}
+				done = true
+			default:
+				ok = false
+				why = fmt.Sprintf("an instruction between Lock and Unlock can panic while the mutex is held (%T)", x)
+			}
+		}
+	}
+	o := fv.emit(nil, "L", "panic-safe:"+fv.siteText(pos, "call"), fv.lockProps(), map[bool]string{true: "true", false: "false"}[ok],
+		"the mutex is released also when the locked region panics (deferred Unlock, or a region that cannot panic)", pos)
+	if !ok {
+		o.Static = "fails: " + why
 		o.Script = ""
 	}
 }
